@@ -456,6 +456,10 @@ def check_combination(case, g, src, stats):
     cap = cpbind.poscap(rview)
     I = inspect.signature(target)
     informed = hasattr(type(target), '__signature__') or '__signature__' in vars(target)
+    iview = universe.sig_view(I)
+    ib = cpbind.binder(iview)
+    ikp = cpbind.kwpassable(iview)
+    inspect_failed = False
     for npos in range(cap + 2):
         for r in range(4):
             for K in itertools.combinations(pool, r):
@@ -471,6 +475,12 @@ def check_combination(case, g, src, stats):
                                'sigtools.signature(Combination) = %s accepts the non-colliding call with %d positionals and keywords %s, which raises TypeError\n%s' % (
                                    R, npos, list(K), src))
                     return
+                # ... also as seen by inspect.signature
+                if all((k in ikp) or (k not in alln) for k in K) and ib.accepts(npos, K) and a[0] == 'TypeError' and not inspect_failed:
+                    inspect_failed = True
+                    stats.fail('C13/combination/inspect-view-accepts-failing-call', dict(case, shape=[npos, list(K)]),
+                               'inspect.signature(Combination) = %s (sigtools.signature: %s) accepts the non-colliding call with %d positionals and keywords %s, which raises TypeError\n%s' % (
+                                   I, R, npos, list(K), src))
     g['RAISE'][0] = True
     try:
         a, b = outcome(target, [1], {}), outcome(ref, [1], {})
